@@ -179,3 +179,26 @@ func init() {
 	externals["(*github.com/gorilla/websocket.Conn).SetReadLimit"] = nop
 	externals["(*github.com/gorilla/websocket.Conn).SetPongHandler"] = nop
 }
+
+// crypto/subtle: constant-time comparisons are compiler intrinsics; their
+// value semantics is all that matters here.
+func init() {
+	externals["crypto/subtle.ConstantTimeCompare"] = func(fr *frame, a []value) value {
+		i := fr.i
+		x, _ := a[0].([]value)
+		y, _ := a[1].([]value)
+		if len(x) != len(y) {
+			return int(0)
+		}
+		c := i.ts.tTrue
+		for k := range x {
+			c = i.ts.And(c, i.ts.Eq(byteTerm(i, x[k]), byteTerm(i, y[k])))
+		}
+		return mkSym(i.ts.Ite(c, i.ts.BV(1, 64), i.ts.BV(0, 64)), types.Int)
+	}
+	externals["crypto/subtle.ConstantTimeEq"] = func(fr *frame, a []value) value {
+		i := fr.i
+		c := i.ts.Eq(i.termOf(a[0]), i.termOf(a[1]))
+		return mkSym(i.ts.Ite(c, i.ts.BV(1, 64), i.ts.BV(0, 64)), types.Int)
+	}
+}
